@@ -93,6 +93,24 @@ func main() {
 		rewritten++
 		fmt.Println("rewrote bbolt bucket.go (fault points)")
 	}
+	if *bbolt != "" {
+		// bbolt's two long-held locks become scheduler-visible: the writer lock (held for a whole write
+		// transaction) and the mmap lock (held shared for a whole read transaction, exclusively by Close and
+		// by a remap). Waiting for a transaction to end is then a disabled thread, not a hang.
+		src := filepath.Join(*bbolt, "db.go")
+		code, err := rewriteBboltDb(src)
+		if err != nil {
+			fmt.Fprintf(os.Stderr, "rewrite bbolt db.go: %v\n", err)
+			os.Exit(1)
+		}
+		dst := filepath.Join(*out, "bbolt_db.go.overlay")
+		if err := os.WriteFile(dst, code, 0o644); err != nil {
+			panic(err)
+		}
+		replace[src] = dst
+		rewritten++
+		fmt.Println("rewrote bbolt db.go (rwlock, metalock, mmaplock -> vsync)")
+	}
 	data, _ := json.MarshalIndent(map[string]interface{}{"Replace": replace}, "", " ")
 	if err := os.WriteFile(filepath.Join(*out, "overlay.json"), data, 0o644); err != nil {
 		panic(err)
@@ -221,6 +239,51 @@ func rewriteBbolt(path string) ([]byte, error) {
 		return nil, fmt.Errorf("expected %d write methods, instrumented %d", len(targets), n)
 	}
 	spec := &ast.ImportSpec{Name: ast.NewIdent("vfault"), Path: &ast.BasicLit{Kind: token.STRING, Value: strconv.Quote("verif/vfault")}}
+	file.Decls = append([]ast.Decl{&ast.GenDecl{Tok: token.IMPORT, Specs: []ast.Spec{spec}}}, file.Decls...)
+	file.Imports = append(file.Imports, spec)
+	var sb strings.Builder
+	if err := format.Node(&sb, fset, file); err != nil {
+		return nil, err
+	}
+	return []byte(sb.String()), nil
+}
+
+// rewriteBboltDb changes the types of DB.rwlock, DB.metalock and DB.mmaplock to the vsync shims (metalock too:
+// bbolt takes the mmap lock while holding it, so a thread parked at the mmap lock would otherwise hold a real mutex).
+func rewriteBboltDb(path string) ([]byte, error) {
+	fset := token.NewFileSet()
+	file, err := parser.ParseFile(fset, path, nil, parser.ParseComments)
+	if err != nil {
+		return nil, err
+	}
+	n := 0
+	ast.Inspect(file, func(node ast.Node) bool {
+		ts, ok := node.(*ast.TypeSpec)
+		if !ok || ts.Name.Name != "DB" {
+			return true
+		}
+		st, ok := ts.Type.(*ast.StructType)
+		if !ok {
+			return true
+		}
+		for _, f := range st.Fields.List {
+			for _, name := range f.Names {
+				switch name.Name {
+				case "rwlock", "metalock":
+					f.Type = &ast.SelectorExpr{X: ast.NewIdent("vsyncshim"), Sel: ast.NewIdent("Mutex")}
+					n++
+				case "mmaplock":
+					f.Type = &ast.SelectorExpr{X: ast.NewIdent("vsyncshim"), Sel: ast.NewIdent("RWMutex")}
+					n++
+				}
+			}
+		}
+		return false
+	})
+	if n != 3 {
+		return nil, fmt.Errorf("expected fields rwlock, metalock and mmaplock in bbolt.DB, found %d", n)
+	}
+	spec := &ast.ImportSpec{Name: ast.NewIdent("vsyncshim"), Path: &ast.BasicLit{Kind: token.STRING, Value: strconv.Quote("verif/vsync")}}
 	file.Decls = append([]ast.Decl{&ast.GenDecl{Tok: token.IMPORT, Specs: []ast.Spec{spec}}}, file.Decls...)
 	file.Imports = append(file.Imports, spec)
 	var sb strings.Builder
